@@ -29,9 +29,16 @@ func ruleMergeOrder(c *eng.Ctx) {
 		c.Undec(R, "core.(*XRefParser).FindXRef", token.NoPos, "anchor not found")
 	} else {
 		last, first := false, false
-		for _, ci := range eng.Calls(fn, false, func(n string, _ ssa.CallInstruction) bool {
-			return strings.HasPrefix(n, "strings.") || strings.HasPrefix(n, "bytes.")
-		}) {
+		var searchCalls []ssa.CallInstruction
+		for _, h := range eng.Cluster(fn, 2) { // the search may sit in a stage function of FindXRef
+			if h.Pkg != fn.Pkg {
+				continue
+			}
+			searchCalls = append(searchCalls, eng.Calls(h, false, func(n string, _ ssa.CallInstruction) bool {
+				return strings.HasPrefix(n, "strings.") || strings.HasPrefix(n, "bytes.")
+			})...)
+		}
+		for _, ci := range searchCalls {
 			n := eng.CalleeName(ci)
 			args := ci.Common().Args
 			if len(args) < 2 {
@@ -264,6 +271,20 @@ func ruleFreeIsError(c *eng.Ctx) {
 		loads = append(loads, loadSite{ci, eng.CalleeName(ci)})
 	}
 	if len(loads) == 0 {
+		// the loads may sit in a stage function of GetObject (lookup stage, load stage)
+		for _, h := range eng.Cluster(fn, 1) {
+			if h == fn || h.Pkg != fn.Pkg {
+				continue
+			}
+			if n := eng.FuncName(h); n == "reader.(*Reader).getCompressedObject" || n == "reader.(*Reader).getUncompressedObject" || n == "reader.(*Reader).getObjectStream" {
+				continue
+			}
+			for _, ci := range eng.CallsNamed(h, false, "reader.(*Reader).getCompressedObject", "reader.(*Reader).getUncompressedObject") {
+				loads = append(loads, loadSite{ci, eng.CalleeName(ci)})
+			}
+		}
+	}
+	if len(loads) == 0 {
 		// the loader picked from a table of method values keyed by the entry type
 		for _, ci := range eng.Calls(fn, false, func(string, ssa.CallInstruction) bool { return true }) {
 			if eng.StaticCallee(ci) != nil {
@@ -283,7 +304,7 @@ func ruleFreeIsError(c *eng.Ctx) {
 		return
 	}
 	for _, ld := range loads {
-		inUse := eng.GuardedBy(fn, ld.Block(), func(f eng.Fact) bool {
+		inUse := stageGuarded(fn, ld.Parent(), ld.Block(), func(f eng.Fact) bool {
 			if fr, ok := eng.LoadOfField(f.Cond); ok && fr.Field == "InUse" && f.Pos {
 				return true
 			}
@@ -298,7 +319,7 @@ func ruleFreeIsError(c *eng.Ctx) {
 			}
 			return false
 		})
-		found := eng.GuardedBy(fn, ld.Block(), func(f eng.Fact) bool {
+		found := stageGuarded(fn, ld.Parent(), ld.Block(), func(f eng.Fact) bool {
 			// ok result (Extract #1) of XRefTable.Get or a map lookup, positive
 			ex, isEx := f.Cond.(*ssa.Extract)
 			if !isEx || !f.Pos || ex.Index != 1 {
